@@ -292,7 +292,7 @@ pub fn gen_limits(r: &mut Rng, len: f64, speed_max: f64, tags: &mut Vec<String>)
     out
 }
 
-pub struct RouteOpts { pub max_links: usize, pub geom: bool, pub malformed: bool }
+pub struct RouteOpts { pub max_links: usize, pub geom: bool, pub malformed: bool, pub plain_speeds: bool }
 
 pub struct Route { pub net: Vec<Link>, pub tp: TrainParams, pub path: Vec<u32>, pub tags: Vec<String>, pub in_domain: bool }
 
@@ -337,7 +337,13 @@ pub fn gen_route(r: &mut Rng, o: &RouteOpts) -> Route {
     for i in 1..=n {
         let len = match r.below(4) { 0 => 1000.0 * (1 + r.below(12)) as f64, 1 => nice(r, 300.0, 20000.0), _ => r.range(200.0, 15000.0) };
         // the speed set that will be selected for this train
-        let mut lims = gen_limits(r, len, tp.speed_max.value, &mut tags);
+        // plain_speeds (C06): at most two ordinary restrictions, no zero-length ones -- the speed
+        // profile is C13's subject and its known defects must not disturb the geometry check
+        let mut lims = if o.plain_speeds {
+            let mut v = vec![];
+            for _ in 0..r.below(3) { let a = nice(r, 0.0, len * 0.6); let b = nice(r, a + 1.0, len); if a < b { v.push(mk_limit(a, b, *r.pick(&[10.0, 15.0, 20.0]))); } }
+            v
+        } else { gen_limits(r, len, tp.speed_max.value, &mut tags) };
         if r.chance(0.92) { sort_limits(&mut lims); } else if lims.len() > 1 { tags.push("limits:unsorted".into()); }
         let head = r.chance(0.4);
         tags.push(if head { "set:head_end".into() } else { "set:tail_end".into() });
